@@ -639,7 +639,7 @@ fn large(c: &mut Case) {
 fn main() {
     runner::main(Spec {
         property: "C01",
-        rule: "cases are drawn per family (lu, qr, chol, chol_indef, svd, svd_rankdef) from seeded structured generators: shape 1..40 (square / tall / wide), f64 or f32, nine structural kinds, rescaled by 1 / 10^u / 2^u with 10^u in [1e-12,1e12], condition number measured by an independent Jacobi SVD and bounded by 1e6 (in f32: 1e6 for LU / QR / Cholesky, half of the draws below 1e3; 1e3 for the SVD family), 1..4 right-hand sides; a case is non-trivial when max(m,n) >= 2 (all rank-deficient and indefinite cases are); distinct = distinct hash of (operation, width, entries of A and B); right-hand sides are dense or structured (identity, signed unit vectors, columns with exactly zero head / tail, one zero column)",
+        rule: "cases are drawn per family (lu, qr, chol, chol_indef, svd, svd_rankdef) from seeded structured generators: shape 1..40 (square / tall / wide), f64 or f32, nine structural kinds, rescaled by 1 / 10^u / 2^u with 10^u in [1e-12,1e12], condition number measured by an independent Jacobi SVD and bounded by 1e6 (in f32: 1e6 for LU / QR / Cholesky, half of the draws below 1e3; 1e3 for the SVD family), 1..4 right-hand sides; a case is non-trivial when max(m,n) >= 2 (all rank-deficient and indefinite cases are); distinct = distinct hash of (operation, width, entries of A and B); right-hand sides are dense or structured (identity, signed unit vectors, columns with exactly zero head / tail, one zero column); large: the six families on orders 41..140",
         assumptions: vec![
             "f32 inputs of the SVD family are restricted to condition number <= 1e3: the SVD solver applies the rank tolerance max(m,n)·eps·s_max, for which an f32 matrix of condition 1e6 is numerically rank-deficient; LU / QR / Cholesky are judged by backward-error residuals and get the full range",
             "oracle arithmetic is f64 with compensated sums on the already-rounded inputs",
@@ -652,7 +652,7 @@ fn main() {
             Family::new("chol_indef", 1500, 30000, chol_indef),
             Family::new("svd", 3500, 70000, svd),
             Family::new("svd_rankdef", 1500, 30000, svd_rankdef),
-            Family::new("large", 120, 2400, large),
+            Family::new("large", 40, 150, large),
         ],
         min_nontrivial: 2000,
         case_timeout_s: 120,
